@@ -12,6 +12,8 @@ import (
 	"encoding/json"
 	"flag"
 	"fmt"
+	"io"
+	"log"
 	"os"
 	"path/filepath"
 	"sort"
@@ -122,6 +124,9 @@ func applyOps(inst *graph.Instance, ops []Op) (opsCoq, oks []string) {
 		if s == "" {
 			continue
 		}
+		if sv, ok := saverOf[inst]; ok && sv.each { // every endpoint of the edit server ends with saver.Save()
+			saverSave(inst)
+		}
 		opsCoq = append(opsCoq, s)
 		oks = append(oks, hx.CoqBool(o.ok))
 	}
@@ -136,8 +141,9 @@ func histCases(d histDesc) []hx.Case {
 	keyb, _ := json.Marshal(d)
 	c.Key = string(keyb)
 
-	_, inst := newApp(d) // the live graph is an application's (saves are App.Schema())
+	app, inst := newApp(d) // the live graph is an application's (saves are App.Schema())
 	defer func() { forget(inst) }()
+	attachSaver(app, inst, d.Saver, len(d.Ops))
 	opsCoq, oks := applyOps(inst, d.Ops)
 	fail := func(msg, key string) []hx.Case {
 		c.GoFail, c.FailKey = msg, key
@@ -172,11 +178,24 @@ func histCases(d histDesc) []hx.Case {
 	if rerr != "" {
 		return fail("repeated save: "+rerr, "graph:save-fails")
 	}
+	// with a saver: the graph file on disk after the server's last save is what gets loaded (and its bytes are one
+	// more save that must agree with the others)
+	loaded := a.sv.bytes
+	if d.Saver != "" {
+		file, ferr := savedFile(inst)
+		if ferr != "" {
+			return fail(ferr, "graph:save-fails")
+		}
+		loaded = file
+		digs = append(digs, digest(file).s)
+		run_count("saver:" + d.Saver + ": graph file written by GraphSaver, read back from disk, loaded")
+	}
 
 	// load into a fresh application (fresh App, ApplySchema), saved repeatedly as well
 	app2, inst2 := newApp(histDesc{})
 	defer func() { forget(inst2) }()
-	ro := guard(func() error { return app2.ApplySchema(a.sv.bytes) })
+	attachSaver(app2, inst2, d.Saver, len(d.Cont))
+	ro := guard(func() error { return app2.ApplySchema(loaded) })
 	b := obs{sum: jnull(), art: jnull()}
 	file2, dig2 := jnull(), "0"
 	if ro.ok {
@@ -247,7 +266,21 @@ func histCases(d histDesc) []hx.Case {
 		}
 		// and the save made after the continuation (the live application has been saved before: this is its
 		// second, third ... save) is loaded into yet another fresh application
-		again := reloadAgain(l.sv, l.sum)
+		// with savers: both graph files after the continuation's last save are further saves; the live one is loaded
+		lsv := l.sv
+		if d.Saver != "" {
+			for _, i := range []*graph.Instance{inst, inst2} {
+				file, ferr := savedFile(i)
+				if ferr != "" {
+					return "None", "after the continuation: " + ferr
+				}
+				cdigs = append(cdigs, digest(file).s)
+				if i == inst {
+					lsv.bytes = file
+				}
+			}
+		}
+		again := reloadAgain(lsv, l.sum)
 		return fmt.Sprintf("(Some (mkcont\n [%s]\n [%s] [%s]\n %s\n %s\n %s\n %s\n %s\n %s\n [%s]\n %s))",
 			strings.Join(opsL, ";\n  "), strings.Join(oksL, ";"), strings.Join(oksR, ";"),
 			l.sum.Coq(), l.art.Coq(), l.sv.info.tree.Coq(), same(l.sum, sumR), same(l.art, artR), same(l.sv.info.tree, fileR),
@@ -469,6 +502,8 @@ func fileCase(d fileDesc, withArts bool) hx.Case {
 // ---- main ----
 
 func main() {
+	log.SetOutput(io.Discard) // GraphSaver logs every write
+	defer cleanupSaver()
 	table := flag.Bool("table", false, "print the observed node-type table as a Coq term and exit")
 	run := hx.ParseFlags("C12", "Check.C12")
 	initTable()
@@ -499,6 +534,7 @@ func main() {
 		}
 	}
 	if run.Replay != "" {
+		cleanupSaver()
 		run.Finish()
 		return
 	}
@@ -551,6 +587,7 @@ func main() {
 	for k, n := range distCounts {
 		run.Dist[k] += n
 	}
+	cleanupSaver()
 	run.Finish()
 }
 
